@@ -1073,7 +1073,7 @@ func (p *BinaryProtocol) ReadAnyWithDesc(desc *TypeDescriptor, byteAsUint8 bool,
 		if keyType == STRING {
 			m := make(map[string]interface{}, p.sizeHint(size))
 			for i := 0; i < size; i++ {
-				kv, e := p.ReadString(false)
+				kv, e := p.ReadString(copyString)
 				if e != nil {
 					return nil, e
 				}
